@@ -19,11 +19,20 @@ Model driver for the `mutex` line protocol (C15).  One operation per input line,
   overlap <holders> | <k>                 -> fin | n/a    fin: the first k holders are compatible with
         all others and the model reaches a state with all k inside together by scheduling only them
   ivs <h>:<enter>:<exit>:<rows> …         -> accept | reject <i> <j> <name>      (interval monitor)
+  tasks <tasks> | <controller>            -> fin          (tasks_deadlock_free/tasks_all_finish: the tasks model
+        `MutexTasks.tsys`, both lock variants, run to the end by a lowest-first and a highest-first scheduler)
+  tivs <waits>;… | <h>:<enter>:<exit>:<rows> …  -> accept | reject <i> <j> <name> | early <task> <prerequisite>
+        interval monitor + order monitor (`MutexTasks.orderMonitor`) on the bodies recorded from the real runner
+  tswap <tasks>                           -> stuck <schedule> | nostuck | unknown
+        search of the swapped model (`MutexTasks.tsysSwapped`, lock map first, then wait) for a stuck state
+
+<tasks> = `;`-separated tasks `<waits>/<map>`, <waits> = `-` or `,`-separated indices of earlier tasks.
 
 <holders> = `;`-separated lock maps, a map = `,`-separated rows `<name>:<r|w>` or `-` (empty map).
 Names are ranked byte-wise (Go string order) to obtain the model's `Name`s.
 -/
 import Goat.Model.Mutex
+import Goat.Model.MutexTasks
 open Goat Goat.Mutex
 
 /-! ### parsing -/
@@ -238,6 +247,73 @@ def showLocks (r : Option (List (Bytes × Bool))) : String :=
     let items := items.toArray.qsort (· < ·) |>.toList
     if items.isEmpty then "map -" else s!"map {",".intercalate items}"
 
+
+/-! ### tasks layer -/
+
+def parseTask (t : String) : Option (List Nat × List (String × Bool)) :=
+  match t.splitOn "/" with
+  | [w, m] => do
+    let ws ← if w = "-" || w = "" then some [] else (w.splitOn ",").mapM String.toNat?
+    let mp ← parseMap "," ":" m
+    pure (ws, mp)
+  | _ => none
+
+def parseTasks (t : String) : Option (List MutexTasks.Task) := do
+  let raw ← (t.trimAscii.toString.splitOn ";").mapM parseTask
+  let pool := namePool (raw.map (·.2))
+  pure (raw.map fun (ws, m) => { waits := ws, map := toLockMap pool m, fails := false })
+
+def tasksDone (tasks : List MutexTasks.Task) (ts : MutexTasks.TState) : Bool :=
+  (List.range tasks.length).all (MutexTasks.finishedAt ts)
+
+/-- repeatedly the first enabled task in `order` -/
+partial def runTasksToEnd (v : Variant) (tasks : List MutexTasks.Task) (order : List Nat)
+    (ts : MutexTasks.TState) (fuel : Nat) : Bool :=
+  if tasksDone tasks ts then true else
+  if fuel = 0 then false else
+  match order.findSome? fun j => MutexTasks.step v tasks ts j with
+  | none => false
+  | some t => runTasksToEnd v tasks order t (fuel - 1)
+
+def runTasksFin (tasks : List MutexTasks.Task) : String :=
+  let fuel := (tasks.map fun t => t.waits.length + 4 * t.map.length + 5).sum + 1
+  let up := List.range tasks.length
+  let ok := [Variant.pref, Variant.plain].all fun v =>
+    runTasksToEnd v tasks up (MutexTasks.init tasks) fuel && runTasksToEnd v tasks up.reverse (MutexTasks.init tasks) fuel
+  if ok then "fin" else "stuck"
+
+/-- depth-first search of the swapped system for a state with no enabled step and an unfinished task -/
+partial def swapSearch (tasks : List MutexTasks.Task) (todo : List (MutexTasks.TState × List Nat))
+    (seen : List MutexTasks.TState) (fuel : Nat) : String :=
+  match todo with
+  | [] => "nostuck"
+  | (ts, path) :: rest =>
+    if fuel = 0 then "unknown" else
+    if seen.contains ts then swapSearch tasks rest seen fuel else
+    let succ := (List.range tasks.length).filterMap fun j =>
+      (MutexTasks.stepSwapped .plain tasks ts j).map fun t => (t, j :: path)
+    if succ.isEmpty && !(ts.lock.all Holder.finished) then
+      "stuck " ++ " ".intercalate (path.reverse.map toString)
+    else swapSearch tasks (succ ++ rest) (ts :: seen) (fuel - 1)
+
+def runSwap (tasks : List MutexTasks.Task) : String :=
+  swapSearch tasks [(MutexTasks.initSwapped tasks, [])] [] 4000
+
+def runTaskMonitor (head : String) (toks : List String) : String :=
+  let waits := (head.trimAscii.toString.splitOn ";").mapM fun w =>
+    if w = "-" || w = "" then some [] else (w.splitOn ",").mapM String.toNat?
+  match waits, toks.mapM parseInterval with
+  | some waits, some raw =>
+    let pool := namePool (raw.map fun (_, _, _, m) => m)
+    let ivs : List Interval := raw.map fun (h, a, b, m) => { holder := h, rows := toLockMap pool m, enter := a, exit := b }
+    match monitor ivs with
+    | some (i, j, m) => s!"reject {i} {j} {pool.getD m "?"}"
+    | none =>
+      match MutexTasks.orderMonitor waits ivs with
+      | some (i, j) => s!"early {i} {j}"
+      | none => "accept"
+  | _, _ => "bad-op"
+
 /-! ### main loop -/
 
 def withHolders (t : String) (f : List LockMap → String) : String :=
@@ -257,6 +333,7 @@ def stepLine (line : String) : String :=
       | _, _, _ => "bad-op"
     | "ivs" :: toks => runMonitor (toks.filter (· ≠ ""))
     | ["rounds", hs] => withHolders hs runFin
+    | ["tswap", ts] => match parseTasks ts with | some tasks => runSwap tasks | none => "bad-op"
     | _ => "bad-op"
   | [head, arg] =>
     match head.splitOn " " with
@@ -269,6 +346,8 @@ def stepLine (line : String) : String :=
       match arg.trimAscii.toString.toNat? with
       | some k => withHolders hs fun maps => runOverlap maps k
       | none => "bad-op"
+    | ["tasks", ts] => match parseTasks ts with | some tasks => runTasksFin tasks | none => "bad-op"
+    | "tivs" :: ws => runTaskMonitor (" ".intercalate ws) ((arg.splitOn " ").filter (· ≠ ""))
     | _ => "bad-op"
   | _ => "bad-op"
 
